@@ -435,6 +435,30 @@ pub fn sized_message(gen: &str, n: usize, fill: u8) -> Vec<u8> {
             m
         }
         "int" => format!(":{}\r\n", n as i64 - 100_000).into_bytes(),
+        g if g.starts_with("combo") && g.len() == 9 => {
+            // "combo" + carrier + outer size + position + depth: a length / integer carrier as the
+            // pos-th of `outer` elements of an enclosing array (the others are ":1"), `depth` such
+            // levels; n indexes the table of special numbers, fill selects the sign form
+            let gb = g.as_bytes();
+            let (carrier, outer, pos, depth) = (gb[5], (gb[6] - b'0') as usize, (gb[7] - b'0') as usize, (gb[8] - b'0') as usize);
+            let num = combo_numbers()[n % combo_numbers().len()].clone();
+            let num = match fill {
+                1 => format!("+{}", num),
+                2 => format!("0{}", num),
+                _ => num,
+            };
+            let mut m = vec![];
+            for _ in 0..depth {
+                m.extend_from_slice(format!("*{}\r\n", outer).as_bytes());
+                for _ in 0..pos {
+                    m.extend_from_slice(b":1\r\n");
+                }
+            }
+            m.push(carrier);
+            m.extend_from_slice(num.as_bytes());
+            m.extend_from_slice(b"\r\n");
+            m
+        }
         g if g.starts_with("nt") && g.len() == 5 => {
             // a number line of n digits ended by an arbitrary byte (then CR LF): carrier, sign, nesting
             let gb = g.as_bytes();
@@ -466,6 +490,14 @@ pub fn sized_message(gen: &str, n: usize, fill: u8) -> Vec<u8> {
     }
 }
 
+pub fn combo_numbers() -> Vec<String> {
+    let mut v: Vec<String> = vec![];
+    for x in [i64::MAX as i128, i64::MAX as i128 - 1, i64::MAX as i128 - 2, i64::MAX as i128 - 5, i64::MAX as i128 + 1, (i64::MAX / 2) as i128, (i64::MAX / 2) as i128 + 1, u32::MAX as i128, u32::MAX as i128 + 1, u32::MAX as i128 + 2, i32::MAX as i128, i32::MAX as i128 + 1, 65_535, 65_536, 65_537, 255, 256, 2, 1, 0, -1, -2, i64::MIN as i128, i64::MIN as i128 + 1, u64::MAX as i128, 1i128 << 64] {
+        v.push(x.to_string());
+    }
+    v
+}
+
 fn sized_specs(tier: Tier) -> Vec<(&'static str, usize, u8)> {
     let mut v = vec![];
     let lens: Vec<usize> = vec![0, 1, 2, 3, 9, 10, 11, 99, 100, 101, 127, 128, 250, 251, 252, 253, 254, 255, 256, 257, 999, 1000, 1001, 1023, 1024, 1025, 4095, 4096, 4097, 8180, 8181, 8182, 8183, 8184, 8185, 8186, 8187, 8188, 8189, 8190, 8191, 8192, 8193, 8194, 9999, 10_000, 10_001, 16_383, 16_384, 16_385, 65_534, 65_535, 65_536, 65_537, 99_999, 100_000, 100_001, 1 << 20];
@@ -494,6 +526,23 @@ fn sized_specs(tier: Tier) -> Vec<(&'static str, usize, u8)> {
     for n in 0..=40usize {
         v.push(("nest", n, 0));
         v.push(("nest_wide", n, 0));
+    }
+    // COMBINATIONS: a special length / integer as the first, a middle or the last element of an
+    // enclosing array of 2 or 3 elements, one and two levels deep (the frames still owed by the
+    // enclosing arrays are state of the completeness check)
+    {
+        const COMBOS: [&str; 45] = [
+            "combo*201", "combo*211", "combo*301", "combo*311", "combo*321", "combo*202", "combo*212", "combo*302", "combo*312", "combo*322", "combo*203", "combo*213", "combo*303", "combo*313", "combo*323",
+            "combo$201", "combo$211", "combo$301", "combo$311", "combo$321", "combo$202", "combo$212", "combo$302", "combo$312", "combo$322", "combo$203", "combo$213", "combo$303", "combo$313", "combo$323",
+            "combo:201", "combo:211", "combo:301", "combo:311", "combo:321", "combo:202", "combo:212", "combo:302", "combo:312", "combo:322", "combo:203", "combo:213", "combo:303", "combo:313", "combo:323",
+        ];
+        for g in COMBOS {
+            for n in 0..combo_numbers().len() {
+                for sign in [0u8, 1, 2] {
+                    v.push((g, n, sign));
+                }
+            }
+        }
     }
     // number lines of every length ended by every kind of byte (the error paths of the number reader)
     for g in ["nt:nT", "nt:-T", "nt:+T", "nt$nT", "nt$-T", "nt$+T", "nt*nT", "nt*-T", "nt*+T", "nt:nN", "nt:-N", "nt$nN", "nt*nN"] {
@@ -1254,6 +1303,9 @@ pub fn long_frames(kind: &str, n: usize) -> Vec<RFrame> {
             RFrame::Integer(7),
         ],
         "bulk_n" => vec![RFrame::Bulk((0..n).map(|i| (i % 253) as u8).collect()), RFrame::Simple(b"x".to_vec()), RFrame::Bulk(vec![b'\n'; n])],
+        // a large value FOLLOWED BY SMALL frames only (what is buffered after it is far less than it was)
+        "bulk_then_small" => vec![RFrame::Integer(1), RFrame::Bulk(vec![b'L'; n]), RFrame::Simple(b"x".to_vec()), RFrame::Integer(5), RFrame::Null, RFrame::Bulk(b"tail".to_vec())],
+        "array_big_elem" => vec![RFrame::Array(vec![RFrame::Bulk(b"SET".to_vec()), RFrame::Bulk(b"k".to_vec()), RFrame::Bulk(vec![b'v'; n])]), RFrame::Simple(b"OK".to_vec()), RFrame::Array(vec![RFrame::Bulk(b"GET".to_vec()), RFrame::Bulk(b"k".to_vec())])],
         _ => vec![],
     }
 }
@@ -1268,6 +1320,12 @@ fn c08_long(job: &Job, sh: &mut Shard) {
     }
     for n in job.tier.pick(vec![65_535usize, 65_536, 65_537, 1 << 20], vec![16_383, 16_384, 16_385, 65_535, 65_536, 65_537, 131_072, 1 << 20, (1 << 20) + 1, 4 << 20]) {
         specs.push(("bulk_n", n));
+        specs.push(("bulk_then_small", n));
+        specs.push(("array_big_elem", n));
+    }
+    for n in [70_000usize, 73_000, 74_000, 80_000, 100_000, 200_000] {
+        specs.push(("bulk_then_small", n));
+        specs.push(("array_big_elem", n));
     }
     for (i, (kind, n)) in specs.iter().enumerate() {
         if i % job.nshards != job.shard {
